@@ -32,6 +32,14 @@ def st_line_closed(C, which, j):
     return Implies(And(0 <= j, j < C.n), And(C.is_propset(v), C.Cl2(v) == v))
 
 
+def st_line_derivation(C, which, j):
+    """lemma.line_closed (is-derivation): the line j is the derivation of the singleton {j} of the other side"""
+    from pyvc.bits import atomv
+    if which == 'col':
+        return Implies(And(0 <= j, j < C.m), And(C.is_propset(atomv(j)), C.O.self_at(j) == C.Dn(atomv(j))))
+    return Implies(And(0 <= j, j < C.n), And(C.is_objset(atomv(j)), C.O.other_at(j) == C.Up(atomv(j))))
+
+
 def _line_closed():
     C = Ctx()
 
@@ -51,6 +59,7 @@ def _line_closed():
             path.oblige(which + '/atom-bit', 'lemma', bit(a, j))
             ext(path, v, D.up(a))
             path.oblige(which + '/is-derivation', 'lemma', Implies(And(0 <= j, j < width), v == D.up(a)))
+            path.oblige(which + '/is-derivation-statement', 'lemma', st_line_derivation(C, which, j))
             # every derivation is closed:  S.cl(D.up(B)) = D.up(D.cl(B)) = D.up(B)
             path.assume([st_dom(D, a), st_cl_def(D, a), st_up_cl(D, a), st_dom(S, D.up(a)), st_cl_def(S, D.up(a))])
             path.oblige(which + '/closed', 'lemma', st_line_closed(C, which, j))
